@@ -802,6 +802,7 @@ pub fn exec_plant(seed: u64) -> Vec<Case> {
         }
         // 3. make the instance present only up to equality
         let mut eg: EGraph<Main> = EGraph::default();
+        let mut steps: Vec<(ATerm, Option<ATerm>)> = Vec::new();
         let mut subs = Vec::new();
         subterms(&t0, &mut subs);
         let cands: Vec<ATerm> = subs.iter().skip(1).filter(|u| mutate_op(u).is_some() && free_slots(u).iter().all(|s| !BINDERS.contains(s))).cloned().collect();
@@ -816,18 +817,16 @@ pub fn exec_plant(seed: u64) -> Vec<Case> {
                 ATerm { v: t.v, fields: t.fields.clone(), children: t.children.iter().map(|c| replace(c, u, w)).collect() }
             }
             let t1 = replace(&t0, &u, &w);
-            eg.add_expr(to_recexpr::<Main>(&t1));
-            let a = eg.add_expr(to_recexpr::<Main>(&u));
-            let b2 = eg.add_expr(to_recexpr::<Main>(&w));
-            eg.union(&a, &b2);
+            steps.push((t1, None));
+            steps.push((u.clone(), Some(w)));
             only_up_to_equality = true;
         } else {
-            eg.add_expr(to_recexpr::<Main>(&t0));
+            steps.push((t0.clone(), None));
         }
         if let Some(u) = &companion {
             // extra parents of `u`: its class is the bigger one when `(add u 0)` is united with it
-            eg.add_expr(to_recexpr::<Main>(&ATerm { v: 13, fields: vec![CField::App], children: vec![u.clone()] }));
-            eg.add_expr(to_recexpr::<Main>(&ATerm { v: 14, fields: vec![CField::App, CField::App], children: vec![u.clone(), u.clone()] }));
+            steps.push((ATerm { v: 13, fields: vec![CField::App], children: vec![u.clone()] }, None));
+            steps.push((ATerm { v: 14, fields: vec![CField::App, CField::App], children: vec![u.clone(), u.clone()] }, None));
         }
         // optionally a symmetric child class
         if companion.is_none() && rng.chance(1, 4) {
@@ -835,11 +834,21 @@ pub fn exec_plant(seed: u64) -> Vec<Case> {
                 let fs = free_slots(u);
                 let (x, y) = (fs[0], fs[1]);
                 let sw = rename_free(u, &move |c| if c == x { y } else if c == y { x } else { c });
-                let a = eg.add_expr(to_recexpr::<Main>(u));
-                let b2 = eg.add_expr(to_recexpr::<Main>(&sw));
-                eg.union(&a, &b2);
+                steps.push((u.clone(), Some(sw)));
             }
         }
+        // (t, None): insert t;  (a, Some(b)): insert both and unite them
+        let build = |eg: &mut EGraph<Main>| {
+            for (a, b) in &steps {
+                let ia = eg.add_expr(to_recexpr::<Main>(a));
+                if let Some(b) = b {
+                    let ib = eg.add_expr(to_recexpr::<Main>(b));
+                    eg.union(&ia, &ib);
+                }
+            }
+        };
+        build(&mut eg);
+        let warm_first = rng.chance(1, 2);
         let mut tags: Vec<String> = Vec::new();
         // scope: no class with a redundant slot
         if eg.ids().iter().any(|i| eg.enodes(*i).iter().any(|n| n.slots().len() > eg.slots(*i).len())) {
@@ -867,6 +876,14 @@ pub fn exec_plant(seed: u64) -> Vec<Case> {
         } else {
             vec![rule]
         };
+        if warm_first {
+            // the very same rule objects have been applied to another e-graph first — one built by the same steps, so with
+            // the same counts of classes, nodes, slots and symmetries
+            let mut warm: EGraph<Main> = EGraph::default();
+            build(&mut warm);
+            let _ = guarded(|| apply_rewrites(&mut warm, &rules));
+            tags.push("t:rules-used-on-another-egraph-first".into());
+        }
         if let Err(e) = guarded(|| apply_rewrites(&mut eg, &rules)) {
             tags.push("viol:apply-rewrites-panics".into());
             tags.push(format!("panic:{}", e.replace(',', " ")));
